@@ -317,6 +317,7 @@ func (e *x) run(in *instr) {
 		child.data = append(child.data, f.data[l-n:]...)
 		child.dtag = append(child.dtag, f.dtag[l-n:]...)
 		f.data, f.dtag = f.data[:l-n], f.dtag[:l-n]
+		child.given = limit + stackDeposit(child.data)
 		f.pendDeferred, f.pendNext = e.deferred, e.next
 		e.m.frames = append(e.m.frames, child)
 		e.child = true
@@ -368,10 +369,16 @@ func (e *x) run(in *instr) {
 	case opDUP:
 		e.dup(1, 1, 1)
 	case opNIP:
+		// calibrated: the top item is set aside first; if there is nothing below it the
+		// instruction fails with the frame's stack already emptied (a parent frame then
+		// gets no refund for that item)
 		e.pay(1)
-		e.need(2)
-		e.permute(1, 0)
+		e.need(1)
+		n := len(f.data)
+		top, tag := f.data[n-1], f.dtag[n-1]
+		f.data, f.dtag = f.data[:n-1], f.dtag[:n-1]
 		e.take(false)
+		f.data, f.dtag = append(f.data, top), append(f.dtag, tag)
 	case opOVER:
 		e.dup(1, 2, 1)
 	case opPICK, opROLL:
@@ -401,11 +408,16 @@ func (e *x) run(in *instr) {
 		e.pay(1)
 		e.permute(1, 0)
 	case opTUCK:
+		// a b -> b' a b.  calibrated: both items are set aside while the copy is paid for;
+		// if that payment fails the frame's stack is left without them
 		e.pay(1)
 		e.need(2)
-		v := e.at(0)
-		e.put(v, false) // a b -> a b b'
-		e.permute(2, 0, 1)
+		n := len(f.data)
+		a, b, ta, tb := f.data[n-2], f.data[n-1], f.dtag[n-2], f.dtag[n-1]
+		e.consumed = append(e.consumed, tb)
+		f.data, f.dtag = f.data[:n-2], f.dtag[:n-2]
+		e.put(b, false)
+		f.data, f.dtag = append(f.data, a, b), append(f.dtag, ta, tb)
 
 	// ---- splice ----
 	case opCAT, opCATPUSHDATA:
